@@ -14,15 +14,19 @@ package main
 // Containment.  Before the repairs 722c622/cb15827 of /repo some inputs made the library recurse
 // without bound ("fatal error: stack overflow" cannot be recovered) or loop for ever while
 // allocating ("((" did both), so the library is never called in the harness process itself: the
-// harness re-executes itself as a worker
-// (environment variable OTRH_KEYFILE_WORKER), sends it one op per line and reads one result
-// line back.  A worker that dies or does not answer within 20 s is replaced.
+// harness re-executes itself as a worker (environment variable OTRH_KEYFILE_WORKER, handled in
+// init() below), sends it one op per line and reads one result line back.  A worker that dies or
+// does not answer within 20 s is replaced.
 //   result STACKOVERFLOW  the worker died with "fatal error: stack overflow"
 //                         (the worker lowers the stack limit from 1 GB to 64 MB to get there fast)
-//   result HANG           the worker's heap passed 256 MB (the largest input is 2 MB), or no
+//   result HANG           the worker's heap passed 256 MB (the largest input is 1 MB), or no
 //                         answer within 20 s
 //   result PANIC          a Go panic, recovered by guard() inside the worker
 // The op and result formats are those of /verif/lean/Otr/DriverKeyFile.lean.
+// Violation keys: C13 keyfile-panic:<entry point>, keyfile-stack-overflow, keyfile-hang,
+// keyfile-slow (an answered call that took more than 2 s); C17 keyfile-roundtrip,
+// keyfile-import-rejects-export, keyfile-import-numbers, privkey-wire-roundtrip.
+// Each key is reported once, with the number of cases and the smallest witness.
 
 import (
 	"bufio"
@@ -331,7 +335,11 @@ func keyfileWorker() {
 			return
 		}
 		line = strings.TrimRight(line, "\n")
-		res := kfEval(line)
+		quiet := strings.HasPrefix(line, "quiet ")
+		res := kfEval(strings.TrimPrefix(line, "quiet "))
+		if quiet && len(res) > 80 { // oracle-only probes: the outcome class is all that is looked at
+			res = res[:80]
+		}
 		out.WriteString(res)
 		out.WriteByte('\n')
 		out.Flush()
@@ -479,7 +487,11 @@ func kfShow(op string) string {
 
 // run one op in the worker, apply the C13 oracles; emit says whether the op goes to the model
 func (k *kfRun) op(op string, emit bool) string {
-	res, desc, took := k.w.call(op)
+	send := op
+	if !emit {
+		send = "quiet " + op
+	}
+	res, desc, took := k.w.call(send)
 	name := strings.Fields(op)[0]
 	entry := kfEntry[name]
 	olog.ok("C13")
@@ -953,7 +965,7 @@ func (k *kfRun) scenario() {
 
 // probes that are too large for the model: oracle only (nothing is emitted)
 func (k *kfRun) oracleOnly() {
-	mb := 1 << 20
+	mb := 1 << 19
 	for _, b := range [][]byte{
 		kfNested(mb, mb, ""),
 		kfNested(mb, 0, ""),
